@@ -38,6 +38,9 @@ DataOf(S, p) == S.store[S.hand[p].name]
 RECURSIVE SortedSeq(_)
 SortedSeq(X) == IF X = {} THEN <<>> ELSE LET m == CHOOSE x \in X : \A y \in X : x <= y IN <<m>> \o SortedSeq(X \ {m})
 
+\* the sources a table written now would name (a table written while a parent has no data names nothing that exists)
+TKey(S, p) == LET p1 == S.par[p][1]  p2 == S.par[p][2] IN
+              IF HasData(S, p1) /\ HasData(S, p2) THEN <<S.hand[p1].name, S.hand[p2].name>> ELSE <<0, 0>>
 \* ---- what the operation's check computes (RSSProcessor::CheckCall on the parents' current data)
 ComputeBroken(S, c) ==
   LET o == S.oper[c]  p1 == S.par[c][1]  p2 == S.par[c][2] IN
@@ -45,7 +48,7 @@ ComputeBroken(S, c) ==
       /\ HasData(S, p1) /\ HasData(S, p2)
       /\ (o.type = "merge" => o.table <= 0)
       /\ (o.type = "synt" /\ o.table = 1) => (/\ DataOf(S, p1).n >= 1 /\ DataOf(S, p2).n >= 1
-                                               /\ o.tkey = <<S.hand[p1].name, S.hand[p2].name>>) )
+                                               /\ o.tkey # <<0, 0>> /\ o.tkey = <<S.hand[p1].name, S.hand[p2].name>>) )
 
 \* ---- announcing pending changes of a source (SaveState -> OnSourceChange -> UpdateOnSrcChange -> UpdateHashes -> OnCoreChange)
 RECURSIVE Sync(_, _), OnCoreChange(_, _), CheckOp(_, _), MarkChildren(_, _, _)
@@ -114,15 +117,19 @@ Lock(S, p) == IF p \in Picts(S) /\ HasData(S, p) THEN [S EXCEPT !.store[S.hand[p
 \* the source manager announces the pending change of p's source
 Save(S, p) == IF p \in Picts(S) THEN Sync(S, p) ELSE S
 
+\* the document is saved, the schema object and its sources are closed, and the document is loaded again (items in any order),
+\* the sources are re-opened on demand: nothing the schema reports may change.  Only taken when nothing is pending.
+Reload(S) == S
+
 \* ---------------------------------------------------------------- operations
 InitFor(S, p, type, table) ==
   IF ~IsOp(S, p) THEN S
   ELSE IF type = "synt" /\ table = -1 THEN S                         \* synthesis needs options
   ELSE IF /\ S.oper[p].type = type /\ S.oper[p].table = table
-          /\ (table = 1 => S.oper[p].tkey = <<S.hand[S.par[p][1]].name, S.hand[S.par[p][2]].name>>) THEN S    \* the same definition: nothing changes
+          /\ (table = 1 => S.oper[p].tkey = TKey(S, p)) THEN S    \* the same definition: nothing changes
   ELSE \* the handle is re-initialised first, then the old result is saved, closed and forgotten (Discard), then the definition is checked
        LET R == [S EXCEPT !.oper[p] = [type |-> type, table |-> table, broken |-> FALSE, outdated |-> FALSE,
-                                        tkey |-> IF table = 1 THEN <<S.hand[S.par[p][1]].name, S.hand[S.par[p][2]].name>> ELSE <<0, 0>>]]
+                                        tkey |-> IF table = 1 THEN TKey(S, p) ELSE <<0, 0>>]]
            S0 == Sync(R, p)
            S1 == [S0 EXCEPT !.hand[p] = EmptyHandle]
        IN CheckOp(S1, p)
@@ -187,4 +194,37 @@ Fresh(S) ==
     \A p \in DOMAIN S.oper :
        (StatusOf(S, p) = "done" /\ HasData(S, S.par[p][1]) /\ HasData(S, S.par[p][2])) =>
           <<DataOf(S, p).n, DataOf(S, p).u>> = Expected(S, p)
+
+-----------------------------------------------------------------------------
+(* Recorded calls: one record per public call (of the schema or of its environment); shared by the generator and the trace spec *)
+NewSrcOf == [p \in 1..300 |-> 1000 + p]
+Op(o) == [op |-> o, p |-> 0, a |-> 0, b |-> 0, new |-> 0, s |-> 0, n |-> 0, kind |-> "", type |-> "", table |-> 0]
+\* apply one recorded call to a state
+Apply(S, c) ==
+  CASE c.op = "InsertBase" -> InsertBase(S, c.new)
+    [] c.op = "InsertOperation" -> InsertOperation(S, c.new, c.a, c.b)
+    [] c.op = "Erase" -> Erase(S, c.p)
+    [] c.op = "ConnectNew" -> ConnectNew(S, c.p, c.s, c.n)
+    [] c.op = "Edit" -> Edit(S, c.p, c.kind)
+    [] c.op = "Save" -> Save(S, c.p)
+    [] c.op = "Lock" -> Lock(S, c.p)
+    [] c.op = "Reload" -> Reload(S)
+    [] c.op = "InitFor" -> InitFor(S, c.p, c.type, c.table)
+    [] c.op = "Execute" -> Execute(S, c.p, NewSrcOf, FALSE).S
+    [] c.op = "ExecuteAll" -> ExecAll(S, SortedSeq(DOMAIN S.oper), 1, NewSrcOf)
+RECURSIVE ApplyAll(_, _, _)
+ApplyAll(S, cs, i) == IF i > Len(cs) THEN S ELSE ApplyAll(Apply(S, cs[i]), cs, i + 1)
+
+SaveAll(S) == LET ps == SortedSeq(Picts(S))
+                  RECURSIVE F(_, _)
+                  F(T, i) == IF i > Len(ps) THEN T ELSE F(Save(T, ps[i]), i + 1)
+              IN F(S, 1)
+View(S) ==
+  LET ps == SortedSeq(Picts(S)) IN
+  [i \in DOMAIN ps |-> LET p == ps[i] IN
+     [pid |-> p, parents |-> S.par[p], isOp |-> IsOp(S, p), hasData |-> HasData(S, p),
+      status |-> StatusOf(S, p),
+      broken |-> IF IsOp(S, p) THEN S.oper[p].broken ELSE FALSE, outdated |-> IF IsOp(S, p) THEN S.oper[p].outdated ELSE FALSE,
+      type |-> IF IsOp(S, p) THEN S.oper[p].type ELSE "",
+      n |-> IF HasData(S, p) THEN DataOf(S, p).n ELSE 0, terms |-> IF HasData(S, p) THEN DataOf(S, p).u + DataOf(S, p).e ELSE 0]]
 =============================================================================
